@@ -614,8 +614,7 @@ def _add_seq(self, d, schema, c, r, seed):
                 # (renderings that are not faithful are already counted on the single documents)
                 st["frame_differs_from_reference_reader"] += 1
             elif exp["ok"] and canon(schema.key(ty, exp["x"], sg)) != canon(fr["via"]["v"]):
-                self.note_drift("Read expects another value (frame %d of a sequence)" % fi, ty,
-                                {"texts": c["texts"], "expected": schema.key(ty, exp["x"], sg), "obs": fr["via"].get("v")})
+                st["frame_differs_from_reference_reader"] += 1
 
 
 Table.add_seq = _add_seq
@@ -663,7 +662,7 @@ def evaluate(wd, chunks):
 # ----------------------------------------------------------------------------- known findings
 
 def kf_match(f, law, kind, ty, subject, bits):
-    """A finding's signature is a list of clauses {"law", "op": inst|doc|printed, "cases": {type: regex}, "direct"?, "via"?}: the regex
+    """A finding's signature is a list of clauses {"law", "op": inst|doc|printed|seq, "cases": {type: regex}, "direct"?, "via"?}: the regex
     is searched in the Recon text (doc rows) or in the canonical serde json of the instance (inst rows, and printed rows = the
     texts the printers produced for an instance); direct / via are the acceptance bits of the two reading paths that must have
     been observed."""
@@ -782,10 +781,11 @@ def report(out, tier, jobs, table, failed, tot, cov, gst, wd):
         panic = isinstance(extra, str) and extra.startswith("PANIC")
         if kind == "seq":
             # a frame of a sequence is a document: the same signatures apply to its text
-            subj, mkind = subject[0][subject[1]], "doc"
+            # (clauses with op "seq" apply to the 2nd and later frames only: a recognizer that has been reset)
+            subj, mkinds = subject[0][subject[1]], (("seq", "doc") if subject[1] > 0 else ("doc",))
         else:
-            subj, mkind = (subject if kind == "doc" else canon(subject)), kind
-        covering = [next((kf for kf in findings if kf_match(kf, law, mkind, ty, subj, row)), None) for law in laws]
+            subj, mkinds = (subject if kind == "doc" else canon(subject)), (kind,)
+        covering = [next((kf for kf in findings if any(kf_match(kf, law, mk, ty, subj, row) for mk in mkinds)), None) for law in laws]
         fail_log.append({"laws": laws, "kind": kind, "ty": ty, "subject": subject, "ops": list(ops), "row": row,
                          "known": [k["id"] if k else None for k in covering]})
         if not panic and all(k is not None for k in covering):
